@@ -3,6 +3,7 @@ import GlueVerif.Lemmas.DerivedTable
 import GlueVerif.Lemmas.DerivedOrder
 import GlueVerif.Lemmas.DerivedData
 import GlueVerif.Lemmas.DerivedGrammar
+import GlueVerif.Lemmas.DerivedCalls
 /-!
 # C14 — derived attributes compute their defining expression and go with their inputs
 
@@ -183,25 +184,63 @@ theorem reorder_preserves_values (I : Interp ω α) (t t' : Table κ ω α) (hp 
   ⟨getData_find_congr I view S t t' (find_perm hp hnd) fuel k,
    specAt_find_congr I idx t t' (find_perm hp hnd) fuel k⟩
 
-/-- **`update_id` keeps the order** (as repaired, F14): replacing `old` by an identifier `new` that
-is not yet in the dataset yields the same entries in the same order with `old` renamed to `new` —
-as key and inside the link of every derived component. -/
-theorem update_id_preserves_order (t : Table κ ω α) (old new : κ) (hne : new ≠ old)
-    (hold : old ∈ t.keys) (hnew : new ∉ t.keys) (hnd : t.keys.Nodup) :
-    updateId true t old new = specRename old new t ∧
-    (updateId true t old new).keys = t.keys.map (fun x => if x = old then new else x) := by
+/-- **`update_id` keeps the order** (as repaired, F14 + F22): an *accepted* call
+`update_id(old, new)` on a component `old` (accepted: `updateIdCall … = some t'`; the repaired code
+raises `ValueError` instead when `new` already names a component) was given a `new` that is not in
+the dataset, and yields the same entries in the same order with `old` renamed to `new` — as key and
+inside the link of every derived component. -/
+theorem update_id_preserves_order (t t' : Table κ ω α) (old new : κ) (hne : new ≠ old)
+    (hold : old ∈ t.keys) (hnd : t.keys.Nodup) (hacc : updateIdCall t old new = some t') :
+    new ∉ t.keys ∧ t' = specRename old new t ∧
+    t'.keys = t.keys.map (fun x => if x = old then new else x) := by
+  obtain ⟨hnew, rfl⟩ := updateIdCall_some t t' old new hne hacc
   have h := updateId_eq_specRename t old new hne hold hnew hnd
-  exact ⟨h, by rw [h, specRename_keys]⟩
+  exact ⟨hnew, h, by rw [h, specRename_keys]⟩
 
-/-- **`update_id` keeps all values**: whatever value the component `x` had at a data index — stored
-or derived to any nesting depth, through binary links, user functions or parsed commands — the
-component now called `if x = old then new else x` has after the replacement. -/
-theorem update_id_preserves_values (I : Interp ω α) (t : Table κ ω α) (old new : κ) (hne : new ≠ old)
-    (hold : old ∈ t.keys) (hnew : new ∉ t.keys) (hnd : t.keys.Nodup)
+/-- **`update_id` keeps all values**: after an accepted call, whatever value the component `x` had
+at a data index — stored or derived to any nesting depth, through binary links, user functions or
+parsed commands — the component now called `if x = old then new else x` has. -/
+theorem update_id_preserves_values (I : Interp ω α) (t t' : Table κ ω α) (old new : κ) (hne : new ≠ old)
+    (hold : old ∈ t.keys) (hnd : t.keys.Nodup) (hacc : updateIdCall t old new = some t')
     (fuel : Nat) (idx : List Int) (x : κ) (v : α) (hv : specAt I fuel t idx x = some v) :
-    specAt I fuel (updateId true t old new) idx (if x = old then new else x) = some v := by
+    specAt I fuel t' idx (if x = old then new else x) = some v := by
+  obtain ⟨hnew, rfl⟩ := updateIdCall_some t t' old new hne hacc
   rw [updateId_eq_specRename t old new hne hold hnew hnd]
   exact specAt_rename I old new t hnew idx fuel x v hv
+
+/-- **What the repaired code refuses, exactly** (`none` = `ValueError`): `remove_component(k)` iff
+`k` names a pixel / world coordinate component (F20); `update_id(old, new)` iff `new` is another
+identifier that already names a component — whether or not `old` does (F22);
+`add_component(c, k)` iff `k` is in use and the replacement would involve a coordinate component
+or turn a derived component into a regular one or back (F21).  Every other call of these three
+kinds is accepted. -/
+theorem refusal_exact (fuel : Nat) (t : Table κ ω α) (k old new : κ) (c : Comp κ ω α) :
+    (removeCall fuel t k = none ↔ ∃ cur, t.find k = some cur ∧ cur.isCoord = true) ∧
+    (updateIdCall t old new = none ↔ new ≠ old ∧ new ∈ t.keys) ∧
+    (addComp t k c = none ↔ ∃ cur, t.find k = some cur ∧ kindClash cur c = true) :=
+  ⟨removeCall_none fuel t k, updateIdCall_none t old new, addComp_none t k c⟩
+
+/-- **A refused call changes nothing**: the dataset after a call that raised (`Table.after`, what
+the state machine of the `hist` family continues with) is the dataset before it — same components in
+the same order, hence the same value (or the same error) for every component under every view. -/
+theorem refused_changes_nothing (I : Interp ω α) (t : Table κ ω α) (c : Call κ ω α)
+    (h : implCall t c = none) :
+    t.after (implCall t c) = t ∧
+    ∀ view S fuel k, getData I view S fuel (t.after (implCall t c)) k = getData I view S fuel t k := by
+  rw [h]
+  exact ⟨rfl, fun _ _ _ _ => rfl⟩
+
+/-- **Every call does what the Spec says** — for every dataset with unique identifiers and every
+call of a history (`add_component` / `add_component_link`, the unchecked `add_component` of a
+ready `DerivedComponent`, `remove_component`, `update_id`, `reorder_components` with any argument):
+the code as repaired (`implCall`: the recursion of `remove_component`, the `OrderedDict` rebuilds,
+the refusals) returns exactly `specCall` — closure filter, pure renaming, permutation, replacement
+in place, and `ValueError` in exactly the Spec's cases — and the identifiers are still unique
+afterwards, so the statement applies to the next call of the history. -/
+theorem call_refines_spec (t : Table κ ω α) (c : Call κ ω α) (hnd : t.keys.Nodup) :
+    implCall t c = specCall t c ∧ (t.after (implCall t c)).keys.Nodup := by
+  have h := implCall_eq_specCall t hnd c
+  exact ⟨h, by rw [h]; exact after_specCall_nodup t hnd c⟩
 
 end table
 
@@ -227,7 +266,7 @@ example :
 
 /-- A dataset `x` (stored), `y = x + 1` (derived). -/
 def witnessTable : Table Nat Nat Nat :=
-  [(0, .prim ⟨[3], [1], 0, fun i => i.toNat⟩), (1, .derived (.binary (.bin 0 (.cid 0) (.const 1))))]
+  [(0, .prim ⟨[3], [1], 0, fun i => i.toNat⟩ false), (1, .derived (.binary (.bin 0 (.cid 0) (.const 1))))]
 
 def witnessInterp : Interp Nat Nat := ⟨fun _ a b => a + b, fun _ _ => 0, fun a => a⟩
 
@@ -237,6 +276,27 @@ theorem update_id_breaks_dependents :
     specAt witnessInterp 3 witnessTable [2] 1 = some 3 ∧
     specAt witnessInterp 3 (updateId false witnessTable 0 7) [2] 1 = none ∧
     specAt witnessInterp 3 (updateId true witnessTable 0 7) [2] 1 = some 3 := by
+  decide
+
+/-- The refusals on a small dataset: pixel component `9`, `x` stored, `y = x + pixel`.  Removing the
+pixel component, renaming `x` onto it (or onto `y`, also from an unknown identifier), storing values
+under the pixel identifier or under `y`, and a derived definition under `x` are refused; renaming the
+pixel component to a fresh identifier is accepted and the component stays a coordinate component
+(still not removable, not replaceable); new values under `x` are accepted in place. -/
+example :
+    let pix : Comp Nat Nat Nat := .prim ⟨[3], [1], 0, fun i => i.toNat⟩ true
+    let st : Comp Nat Nat Nat := .prim ⟨[3], [1], 0, fun _ => 4⟩ false
+    let dv : Comp Nat Nat Nat := .derived (.binary (.bin 0 (.cid 0) (.cid 9)))
+    let t : Table Nat Nat Nat := [(9, pix), (0, st), (1, dv)]
+    (removeCall 4 t 9).isNone ∧ (updateIdCall t 0 9).isNone ∧ (updateIdCall t 0 1).isNone ∧
+    (updateIdCall t 5 9).isNone ∧ (addComp t 9 st).isNone ∧ (addComp t 1 st).isNone ∧
+    (addComp t 0 dv).isNone ∧
+    ((updateIdCall t 9 7).map (·.keys)) = some [7, 0, 1] ∧
+    ((updateIdCall t 9 7).bind fun t' => removeCall 4 t' 7) = none ∧
+    ((updateIdCall t 9 7).bind fun t' => addComp t' 7 st) = none ∧
+    ((addComp t 0 st).map (·.keys)) = some [9, 0, 1] ∧
+    ((removeCall 4 t 0).map (·.keys)) = some [9] ∧
+    (implCall t (.remove 9)).isNone ∧ (t.after (implCall t (.remove 9))).keys = [9, 0, 1] := by
   decide
 
 /-- The hypotheses of `getitem_elementwise` are satisfiable by a non-trivial dataset: the witness
@@ -262,8 +322,8 @@ example : TableOk [3] witnessTable ∧ refsOk 3 witnessTable 1 = true ∧
 `d = b*c`, `e = c+1`.  Removing `a` removes `a, b, d` and keeps `c, e` in order. -/
 example :
     let t : Table Nat Nat Nat :=
-      [(0, .prim ⟨[1], [1], 0, fun _ => 5⟩), (1, .derived (.binary (.bin 0 (.cid 0) (.const 1)))),
-       (2, .prim ⟨[1], [1], 0, fun _ => 7⟩), (3, .derived (.binary (.bin 1 (.cid 1) (.cid 2)))),
+      [(0, .prim ⟨[1], [1], 0, fun _ => 5⟩ false), (1, .derived (.binary (.bin 0 (.cid 0) (.const 1)))),
+       (2, .prim ⟨[1], [1], 0, fun _ => 7⟩ false), (3, .derived (.binary (.bin 1 (.cid 1) (.cid 2)))),
        (4, .derived (.binary (.bin 0 (.cid 2) (.const 1))))]
     (removeComp 6 t 0).keys = [2, 4] ∧ depClosure t 0 = [0, 1, 3] := by
   decide
@@ -275,10 +335,10 @@ a single pass over the derived components in table order would keep `d` — and 
 first gives the same survivors.  Also a cyclic pair `x = y+1`, `y = x+a`: both go with `a`. -/
 example :
     let t : Table Nat Nat Nat :=
-      [(0, .prim ⟨[1], [1], 0, fun _ => 5⟩), (3, .derived (.binary (.bin 1 (.cid 2) (.const 2)))),
-       (2, .derived (.binary (.bin 0 (.cid 0) (.const 1)))), (4, .prim ⟨[1], [1], 0, fun _ => 7⟩)]
+      [(0, .prim ⟨[1], [1], 0, fun _ => 5⟩ false), (3, .derived (.binary (.bin 1 (.cid 2) (.const 2)))),
+       (2, .derived (.binary (.bin 0 (.cid 0) (.const 1)))), (4, .prim ⟨[1], [1], 0, fun _ => 7⟩ false)]
     let cyc : Table Nat Nat Nat :=
-      [(5, .derived (.binary (.bin 0 (.cid 6) (.const 1)))), (0, .prim ⟨[1], [1], 0, fun _ => 5⟩),
+      [(5, .derived (.binary (.bin 0 (.cid 6) (.const 1)))), (0, .prim ⟨[1], [1], 0, fun _ => 5⟩ false),
        (6, .derived (.binary (.bin 0 (.cid 5) (.cid 0))))]
     (removeComp 5 t 0).keys = [4] ∧ depClosure t 0 = [0, 2, 3] ∧
     ((reorderComps t [4, 3, 2, 0]).map fun t' => ((removeComp 5 t' 0).keys, t'.keys)) =
